@@ -204,7 +204,29 @@ def _df(shard):
             if key not in seen:
                 seen.add(key)
                 out["failures"].append(fw.fail(key, f"df_detrend(columns={cols}, order={order}, inplace={inplace}, suffix={suffix!r}): {prob}", dict(shard)))
-    out["samples"].append({"df_detrend options": "columns x order x inplace x suffix"})
+    # a frame that already carries a detrended copy and is detrended again: the output name of one selected column is the name
+    # of another selected column; every output is still the detrended version of its own *input* column
+    X, Z = records.id1(N) + 0.1 * np.arange(N), records.id3(N) * 2.0 + 0.01 * np.arange(N) ** 2
+    for order, first in itertools.product((0, 1, 2, 3, 4, 5), ("x", "x_detrended")):
+        cols = ["x", "x_detrended"] if first == "x" else ["x_detrended", "x"]
+        dfc = pd.DataFrame({c: (X if c == "x" else Z) for c in cols})
+        out["evals"] += 1
+        out["nontrivial"] += 1
+        try:
+            r = df_detrend(dfc, columns=cols, order=order, inplace=False, suffix="_detrended")
+        except Exception as e:  # noqa: BLE001
+            if "df/chained-raises" not in seen:
+                seen.add("df/chained-raises")
+                out["failures"].append(fw.fail("df/chained-raises", f"df_detrend on a frame with columns {cols} raised {type(e).__name__}: {e}", dict(shard)))
+            continue
+        want = np.asarray(polynomial_detrend(Z.copy(), order=order), dtype=float)
+        got = np.asarray(r["x_detrended_detrended"], dtype=float) if "x_detrended_detrended" in r.columns else None
+        if got is None or got.shape != want.shape or not np.allclose(got, want, rtol=0, atol=1e-9 * (np.abs(want).max() + 1)):
+            if "df/chained" not in seen:
+                seen.add("df/chained")
+                out["failures"].append(fw.fail("df/chained", f"df_detrend(columns={cols}, order={order}): 'x_detrended_detrended' is not the detrended input column 'x_detrended'"
+                                                             f" (max diff {None if got is None else float(np.max(np.abs(got - want)))!r})", dict(shard)))
+    out["samples"].append({"df_detrend options": "columns x order x inplace x suffix; chained frame (x, x_detrended)"})
     return out
 
 
